@@ -97,4 +97,9 @@ META = {
         "note": "Trusted: Lean kernel; model; trap redirection and sigaltstack. Partial: the faulting stack pointer is not observable from outside the handler, so the sp-to-message link is tied only through the pure bounds function.",
         "design_ref": "DESIGN.md §4 C24",
     },
+    "C10": {
+        "text": "Theorems from every scheduler state: check_ready never wakes an entry before its time (C10_not_early) and leaves no due entry waiting (C10_due_are_woken); a popped coroutine with a pending cancel is dropped without being resumed or reported (C10_cancelled_not_resumed); resuming or dropping one coroutine leaves every other coroutine untouched (C10_frame); a result is reported exactly when the coroutine finishes, with its own outcome, and a finished coroutine enters no queue again (C10_result_when_finished / C10_error_when_failed); delayed and yielding coroutines are parked in the right place (C10_park_delayed). Tie: a real Scheduler driven by generated submit/pass/advance/cancel/try_resume histories, per pass the resumed sequence and the result map compared; the Spec (exactly-once, own value, not early, woken when due, not after cancel, eventually reported) evaluated on the implementation's outputs.",
+        "note": "Trusted: Lean kernel; scheduler and coroutine models; virtual clock. The exactly-once claim across whole passes is stated per iteration (a finished coroutine is in no queue) rather than as a global placement invariant.",
+        "design_ref": "DESIGN.md §4 C10",
+    },
 }
